@@ -186,8 +186,8 @@ CHECKS["C04"] = {
              "errors.Is(err, context.Canceled) and, in the default mode, so do sends parked in the transport (only when the cancel is the sole termination cause); nil is never returned by a blocked op; "
              "operations issued afterwards fail at once; once the transport moves again the peer handler ends with its stream context done and the connection is closed or a probe RPC succeeds. "
              "Non-trivial: >= 2 operations in flight at cancel time with a write parked in the transport, a goroutine held at a point, or a terminal call in flight. Distinct by action trace + programs. "
-             "server_side: a handler with a sender goroutine (sends parked in the transport because server->client bytes are not taken) and a receiver goroutine is brought into flight, then the serving context is cancelled, the client disconnects, or the client cancels "
-             "(both modes; only what has to travel moves); every handler call must return, the handler's stream context must be done, later handler sends/receives must fail. Non-trivial: a handler operation in flight."),
+             "server_side: a handler with a sender goroutine (sends parked in the transport because server->client bytes are not taken) and a receiver goroutine is brought into flight - or a handler that returns an error at once, so that the server's own SendError is what is parked in the transport -, then the serving context is cancelled, the client disconnects, or the client cancels "
+             "(both modes; only what has to travel moves); every handler call must return, the handler's stream context must be done, later handler sends/receives must fail, no goroutine stays inside SendError. Non-trivial: a handler operation (or the server's SendError) in flight."),
     "assumptions": E3_ASSUME + ["known findings F7, F13, F14, F19 are excluded by construction (see known_findings.jsonl) and their minimal scenarios are replayed on every run",
                                 "server side: after a client's SOFT cancel the connection lives on and the client keeps reading, so server->client bytes move again (a send parked in a dead network can only end with the transport)", "a send that was merely queued behind another send may report io.EOF instead of the context error (the suite's own TestCancel relies on that); operations held at a scheduling point are 'in progress', only their return is demanded"],
     "subs": [
